@@ -175,6 +175,21 @@ template <class T, size_t M, size_t K, size_t N, int LT, int RT> static FX_NOINL
     new (cp) C(tmatmul<typename Tag<LT>::type, typename Tag<RT>::type>(a, b));
     fx::clobber();
 }
+// the same call with unevaluated operands: ARG 1 = (tensor, expression), 2 = (expression, tensor), 3 = (expression, expression)
+template <class T, size_t M, size_t K, size_t N, int LT, int RT, int ARG> static FX_NOINLINE void thunk_e(const void* ap, const void* bp, void* cpv) {
+    using A = Tensor<T, M, K>; using B = Tensor<T, K, N>; using C = Tensor<T, M, N>;
+    const A& a = *static_cast<const A*>(ap); const B& b = *static_cast<const B*>(bp); C* cp = static_cast<C*>(cpv);
+    fx::escape(ap); fx::escape(bp); fx::escape(cpv);
+    if (ARG == 1) new (cp) C(tmatmul<typename Tag<LT>::type, typename Tag<RT>::type>(a, b + 0));
+    else if (ARG == 2) new (cp) C(tmatmul<typename Tag<LT>::type, typename Tag<RT>::type>(a + 0, b));
+    else new (cp) C(tmatmul<typename Tag<LT>::type, typename Tag<RT>::type>(a + 0, b + 0));
+    fx::clobber();
+}
+template <class T, size_t M, size_t K, size_t N, int LT, int RT, int ARG> static inline void tmm_e(fx::Ctx& fx) {
+    c01::Job<T> j{M, K, N, sizeof(Tensor<T, M, K>), sizeof(Tensor<T, K, N>), sizeof(Tensor<T, M, N>), c01::F_MATMUL, &thunk_e<T, M, K, N, LT, RT, ARG>};
+    j.lhs_tag = LT; j.rhs_tag = RT;
+    c01::run_job<T>(fx, j);
+}
 template <class T, size_t M, size_t K, size_t N, int LT, int RT> static inline void tmm(fx::Ctx& fx) {
     c01::Job<T> j{M, K, N, sizeof(Tensor<T, M, K>), sizeof(Tensor<T, K, N>), sizeof(Tensor<T, M, N>), c01::F_MATMUL, &thunk<T, M, K, N, LT, RT>};
     j.lhs_tag = LT; j.rhs_tag = RT;
